@@ -11,6 +11,7 @@ back through the binding, unknown bytes are junk.
 -/
 import LndModel.Prelude.Lines
 import LndModel.C11.Model
+import LndModel.C11.ConnModel
 
 open LndModel LndModel.Lines LndModel.C11
 
@@ -67,6 +68,11 @@ structure Mach where
   /-- receive nonce / rotation count the implementation reported after its last operation -/
   implRn : Nat := 0
   implRe : Nat := 0
+  /-- `Conn.readBuf` of this side, and what `Conn.Read` decrypted / returned since the last
+      `cread` summary line -/
+  rbuf : List PByte := []
+  cgot : List Msg := []
+  cgotN : Nat := 0
 deriving Inhabited
 
 /-- AEAD uses between two states of one cipher stream (an operation makes at most two) -/
@@ -783,29 +789,56 @@ def step (s : St) (line : String) : IO St := do
     if implErr == "ok" && implN != all then
       s ← monitor s "flush-accounting" s!"Conn.Write returned {implN} of {all} without error"
     return { s with connSent := (who, chunks) :: s.connSent.filter (·.1 != who) }
-  | "cread" :: who :: rest =>
+  | "crd" :: who :: rest =>
+    -- one `Conn.Read(b)`, `len(b) = cap`, by the peer of `who`; replayed on `ConnR.step`
     let s := { s with ops := s.ops + 1 }
     let wid := if who == "i" then 1 else 2
+    let rid := if who == "i" then 2 else 1
+    let cap := (kvNat? rest "cap").getD 0
+    let m0 := getMach s rid
+    let p0 := getPipe s wid
+    -- the unread stream handed to the model in fragments 1, 17, 1000, rest (the model must not
+    -- depend on the fragmentation)
+    let frags := [p0.buf.take 1, (p0.buf.drop 1).take 17, (p0.buf.drop 18).take 1000, p0.buf.drop 1018]
+    let (cr, st) := ConnR.step { rcv := m0.rcv, inb := frags, buf := m0.rbuf } (.read cap)
+    let (mn, merr) : Nat × String := match cr with
+      | .data bs => (bs.length, "ok")
+      | .fail e => (0, rErrStr e)
+      | .emptyEof => (0, "eof")
+    let m := { (m0.withRcv st.rcv) with rbuf := st.buf, cgot := m0.cgot ++ st.msgs, cgotN := m0.cgotN + mn }
+    let mut s := setPipe (setMach s m) { p0 with buf := st.inb.flatten }
+    let implN := (kvNat? res "n").getD 0
+    let implErr := (kv? res "err").getD "?"
+    if implN != mn || implErr != merr || kvNat? res "bl" != some st.buf.length then
+      s ← mismatch s s!"crd {who} cap={cap}: model n={mn} err={merr} bl={st.buf.length}, impl {res}"
+    -- monitor (from the bytes themselves): what Conn.Read has returned so far is a prefix of
+    -- what the peer wrote; a Read never returns more than the caller's buffer holds
+    if kv? res "pfx" != some "1" then
+      s ← monitor s "delivered-not-sent" s!"Conn.Read (buffer {cap}) returned bytes that are not the next bytes written by the peer ({res})"
+    if implN > cap then
+      s ← monitor s "delivered-not-sent" s!"Conn.Read returned {implN} bytes into a buffer of {cap}"
+    return s
+  | "cread" :: who :: rest =>
+    -- summary of the `crd` lines since the last summary
+    let s := { s with ops := s.ops + 1 }
     let rid := if who == "i" then 2 else 1
     let want := (kvNat? rest "want").getD 0
     let sentChunks := ((s.connSent.find? (·.1 == who)).map (·.2)).getD []
     let m0 := getMach s rid
-    let p0 := getPipe s wid
-    let rr := connReadMsgs (sentChunks.length + 1) want m0.rcv p0.buf
-    let got := rr.1
-    let n := got.foldl (fun a d => a + d.len) 0
-    let err := match rr.2.1 with | none => "ok" | some e => rErrStr e
-    let m := m0.withRcv rr.2.2.1
-    let p := { p0 with buf := rr.2.2.2 }
-    let mut s := setPipe (setMach s m) p
-    let modelErr := if want == 0 && err == "ok" then "eof" else err   -- bytes.Buffer.Read on an empty record
-    let same := got == sentChunks
+    let n := m0.cgotN
+    let same := m0.cgot == sentChunks && m0.rbuf.isEmpty
     let implSame := kv? res "same" == some "1"
-    if kvNat? res "got" != some n || implSame != same || (kv? res "err").getD "?" != modelErr then
-      s ← mismatch s s!"cread {who}: model got={n} same={same} err={modelErr}, impl {res}"
+    let implErr := (kv? res "err").getD "?"
+    let mut s := setMach s { m0 with cgot := [], cgotN := 0 }
+    if kvNat? res "got" != some n || implSame != same then
+      s ← mismatch s s!"cread {who}: model got={n} same={same}, impl {res}"
     if !implSame then
       s ← monitor s "delivered-not-sent" s!"Conn.Read returned bytes different from those written ({res})"
     else s := { s with delivered := s.delivered + sentChunks.length }
+    -- an unaltered, completely written message must be readable completely (an empty one
+    -- surfaces as io.EOF from bytes.Buffer.Read)
+    if (kvNat? res "got" != some want) || (implErr != "ok" && !(want == 0 && implErr == "eof")) then
+      s ← monitor s "clean-stream-rejected" s!"Conn.Read of a completely written, unaltered message of {want} bytes: {res}"
     return s
   | "cnext" :: who :: _ =>
     -- one record of the message written by `who`, read by the other side through
